@@ -179,7 +179,7 @@ def partitions(tier, seed):
                 first = (kind, wtype) not in seen_kinds
                 seen_kinds.add((kind, wtype))
                 maxcp = 2 if (first or not q) else 1
-                parts.append(_str_part(m, attr, kind, param, maxcp, 250 if q else 900))
+                parts.append(_str_part(m, attr, kind, param, maxcp, 250 if q else 480))
                 if kind in ('exchange', 'queue', 'maxlen'):
                     limit = {'exchange': spec.EXCHANGE_MAXLEN, 'queue': spec.QUEUE_MAXLEN}.get(kind, param)
                     parts.append(_len_part(m, attr, kind, limit))
